@@ -243,6 +243,10 @@ def _s1(ctx):
             elif m == 'dec_ref':
                 rm = [a for a in ats if a.op == 'fetch_sub']
                 row[m] = 'rmw' if rm else ('none' if not ats else '?')
+        # the same facts given as associated constants (`const DO_DROP: bool`) instead of functions
+        for cn_, cv_ in (F.flavour_consts.get(fl) or {}).items():
+            if cn_.lower() in ('do_drop',) and cn_.lower() not in row and cv_ is not None:
+                row[cn_.lower()] = str(cv_)
         kind = None
         for k, exp in ROWS.items():
             if all(row.get(m) == v for m, v in exp.items()):
